@@ -31,7 +31,7 @@ class Pair:
 
     @property
     def dual(self) -> bool:
-        return self.a != self.b
+        return self.kind != "asym" and self.a != self.b
 
     def __repr__(self):
         return f"{self.kind}:{self.a}/{self.b}"
@@ -124,8 +124,11 @@ def match(a, b, under_cmp=False) -> list[Pair] | None:
                 else:
                     m2 = _m2(la, rb, ra, lb, True)  # operands swapped: flips b's direction
                     if m2 is None:
-                        return None
-                    out += [Pair("cmp", ta, "lt" if tb == "gt" else "gt", a, b)] + m2
+                        # both arms are order comparisons but of different quantities: the arms
+                        # cannot be mirror images of each other (one side clamps, offsets, ...)
+                        out += [Pair("cmp", ta, tb, a, b), Pair("asym", norm(a)[:60], norm(b)[:60], a, b)]
+                    else:
+                        out += [Pair("cmp", ta, "lt" if tb == "gt" else "gt", a, b)] + m2
             else:
                 if type(oa) is not type(ob):
                     return None
